@@ -2715,7 +2715,7 @@ INFO = {
 }
 for _v in INFO.values():
     _v['rule'] += (
-        '; swarm dimensions (see probes): falsy / equal / unhashable components, components whose __class__ lies, instance-level __events__ and callbacks, virtual subclasses, late subclasses, queries by object, ladders of diamonds, recycling id generators, unorderable ids, components only the world references, remove_handler by hand, callbacks that peek at the world, on_remove callbacks that finish off other pending entities (also during clear), nested process(), 18-24 processor types, 2**20 insertions (thorough), processors with __eq__ and with priorities changed while registered, direct callbacks that switch dispatching off or run a frame, removal callbacks of the deletion pass that clear the world / run a frame / change the processor set, classes flagged abstract, processors nobody else refers to, components that are processors too, __bases__ assignment, BaseException faults, processors with an ordering of their own, 4099-70000 deferred deletions in one frame, on_add-only components forgotten while their on_add is postponed')
+        '; swarm dimensions (see probes): falsy / equal / unhashable components, components whose __class__ lies, instance-level __events__ and callbacks, virtual subclasses, late subclasses, queries by object, ladders of diamonds, recycling id generators, unorderable ids, components only the world references, remove_handler by hand, callbacks that peek at the world, on_remove callbacks that finish off other pending entities (also during clear), nested process(), 18-24 processor types, 2**20 insertions (thorough), processors with __eq__ and with priorities changed while registered, direct callbacks that switch dispatching off or run a frame, removal callbacks of the deletion pass that clear the world / run a frame / change the processor set, classes flagged abstract, processors nobody else refers to, components that are processors too, __bases__ assignment, BaseException faults, processors with an ordering of their own, 4099-70000 deferred deletions in one frame, on_add-only components forgotten while their on_add is postponed, the id None, ids whose hash queries the world, falsy component classes, methods named like events that are mapped elsewhere, positional-only process(), class chains of 300-2500 levels')
 PROBES = {
     'C01': ['detach_route.replace', 'replace_only_component_of_type',
             'auto_id_in_explicit_pool', 'explicit_id', 'get_by_base_type',
